@@ -451,6 +451,14 @@ func GenCase(t *rapid.T, kinds []string) Case {
 // Enumerate explores schedules of cs depth-first below the subtree given by `fixed` (option values of the first
 // decisions, never backtracked). maxPreempt < 0: unbounded (complete). Option v at a decision means "the
 // (def+v)-th enabled task" where def continues the current task, so option 0 never pre-empts.
+//
+// LeafCap (0 = none) bounds the number of schedules explored below one `fixed` subtree; Truncated counts the subtrees
+// that were cut off by it (a bound on the exploration, reported as such - never a verdict).
+var (
+	LeafCap   int
+	Truncated int
+)
+
 func Enumerate(t world.T, cs Case, maxPreempt int, fixed []int, after func(w *world.World, r *Result), onResult func(Result)) int {
 	count := 0
 	prefix := append([]int{}, fixed...)
@@ -508,6 +516,10 @@ func Enumerate(t world.T, cs Case, maxPreempt int, fixed []int, after func(w *wo
 		} else {
 			count++
 			onResult(r)
+			if LeafCap > 0 && count >= LeafCap {
+				Truncated++
+				return count
+			}
 		}
 		first, retries = false, 0
 		i := len(taken) - 1
